@@ -22,8 +22,8 @@ for d in sorted(glob.glob(os.path.join(V, 'seeded', 'C*_*'))):
         m = json.load(open(os.path.join(d, 'meta.json')))
     except Exception:
         m = {}
-    what = (m.get('clause_broken') or '').replace('\n', ' ').replace('|', '/')
-    needs = (m.get('what_it_needs_to_manifest') or '').replace('\n', ' ').replace('|', '/')
+    what = (m.get('clause_broken') or m.get('summary') or '').replace('\n', ' ').replace('|', '/')
+    needs = (m.get('what_it_needs_to_manifest') or m.get('needs_to_manifest') or '').replace('\n', ' ').replace('|', '/')
     r = res.get(sid)
     if r is None:
         verdict = 'not run'
